@@ -5,6 +5,53 @@ From Coq Require Import List NArith Bool.
 From SopVerif Require Import Gen.RbacConsts Rbac.
 Import ListNotations.
 
+(* Vocabulary of the harness domains: the harness prints these names instead of byte lists (parsing the
+   literals dominates the evaluation time); VocabCase checks on every run that the harness table and
+   these definitions agree. *)
+Definition v0 : str := []. (* "" *)
+Definition v1 : str := [97;108;105;99;101]%N. (* "alice" *)
+Definition v2 : str := [98;111;98]%N. (* "bob" *)
+Definition v3 : str := [65;108;105;99;101]%N. (* "Alice" *)
+Definition v4 : str := [97;108;105;99;101;32]%N. (* "alice " *)
+Definition v5 : str := [42]%N. (* "*" *)
+Definition v6 : str := [115;121;115;116;101;109]%N. (* "system" *)
+Definition v7 : str := [65;100;109;105;110]%N. (* "Admin" *)
+Definition v8 : str := [85;115;101;114]%N. (* "User" *)
+Definition v9 : str := [71;117;101;115;116]%N. (* "Guest" *)
+Definition v10 : str := [88]%N. (* "X" *)
+Definition v11 : str := [97;100;109;105;110]%N. (* "admin" *)
+Definition v12 : str := [65;68;77;73;78]%N. (* "ADMIN" *)
+Definition v13 : str := [65;100;109;105;110;32]%N. (* "Admin " *)
+Definition v14 : str := [83;79;80]%N. (* "SOP" *)
+Definition v15 : str := [76;111;110;103;84;101;114;109;77;101;109;111;114;121]%N. (* "LongTermMemory" *)
+Definition v16 : str := [107;98;49]%N. (* "kb1" *)
+Definition v17 : str := [115;111;112]%N. (* "sop" *)
+Definition v18 : str := [83;111;112]%N. (* "Sop" *)
+Definition v19 : str := [108;111;110;103;116;101;114;109;109;101;109;111;114;121]%N. (* "longtermmemory" *)
+Definition v20 : str := [76;111;110;103;84;101;114;109;77;101;109;111;114;121;32]%N. (* "LongTermMemory " *)
+Definition v21 : str := [83;79;80;47;120]%N. (* "SOP/x" *)
+Definition v22 : str := [109;101;109;111;114;121;95;49]%N. (* "memory_1" *)
+Definition v23 : str := [112;117;98;108;105;99]%N. (* "public" *)
+Definition v24 : str := [112;114;105;118;97;116;101]%N. (* "private" *)
+Definition v25 : str := [80;85;66;76;73;67]%N. (* "PUBLIC" *)
+Definition v26 : str := [83;121;115;116;101;109]%N. (* "System" *)
+Definition v27 : str := [105;110;116;101;114;110;97;108]%N. (* "internal" *)
+Definition v28 : str := [115;121;115;116;101;109;32]%N. (* "system " *)
+Definition v29 : str := [114;101;97;100]%N. (* "read" *)
+Definition v30 : str := [119;114;105;116;101]%N. (* "write" *)
+Definition v31 : str := [100;101;108;101;116;101]%N. (* "delete" *)
+Definition v32 : str := [108;105;115;116]%N. (* "list" *)
+Definition v33 : str := [97;105;95;115;101;108;101;99;116]%N. (* "ai_select" *)
+Definition v34 : str := [101;120;101;99;117;116;101]%N. (* "execute" *)
+Definition v35 : str := [82;101;97;100]%N. (* "Read" *)
+Definition v36 : str := [115;104;97;114;101]%N. (* "share" *)
+Definition v37 : str := [99;97;110;95;114;101;97;100]%N. (* "can_read" *)
+Definition v38 : str := [99;97;110;95;101;100;105;116]%N. (* "can_edit" *)
+Definition v39 : str := [99;97;110;95;100;101;108;101;116;101]%N. (* "can_delete" *)
+Definition v40 : str := [99;97;110;95;97;105;95;115;101;108;101;99;116]%N. (* "can_ai_select" *)
+Definition v41 : str := [114;111;111;116]%N. (* "root" *)
+Definition vocab_size : nat := 42.
+
 (* what the implementation returned for one action *)
 Record impl_out := mkOut {
   o_action : str;
@@ -21,6 +68,8 @@ Inductive c34case :=
 (* ResolveRBACMap: registered = whether a blueprint was registered under the asset type;
    ev = Some table when the blueprint has an evaluator (answering from the table);
    impl = the returned map, sorted by key *)
+(* consistency of the vocabulary table: (name used, byte list meant) *)
+| VocabCase (l : list (str * str))
 | MapCase (c : caller) (asset : str) (local : option access) (registered : bool) (acts : list str)
           (ev : option (list (str * bool))) (impl : list (str * bool)).
 
@@ -48,6 +97,7 @@ Definition c34_check (k : c34case) : bool :=
   match k with
   | PolicyCase c name acc ro outs =>
       Bool.eqb (is_system_readonly name) ro && forallb (out_ok c name acc) outs
+  | VocabCase l => forallb (fun p => str_eqb (fst p) (snd p)) l
   | MapCase c asset local registered acts ev impl =>
       let bp := mkBlueprint acts (match ev with Some t => Some (table_eval t) | None => None end) in
       let reg := if registered then register asset_type bp [] else [] in
